@@ -57,6 +57,7 @@ var genFiles = []genFile{
 	{Name: "PolicyMatch", Prelude: policyMatchPrelude},
 	{Name: "PolicyOrder", ModelImports: []string{"NodeApi"}},
 	{Name: "Limits", ModelImports: []string{"NodeApi"}, Prelude: "variable (ext_self : Node → GoM Unit)\n", Postlude: limitsPostlude},
+	{Name: "Args", Imports: []string{"Limits"}, ModelImports: []string{"NodeApi"}, Structs: []string{"args.Args"}},
 	{Name: "ChainEntry", Imports: []string{"ChainTypes"}, Prelude: chainEntryPrelude},
 	{Name: "ChainProofsShell", Imports: []string{"ChainTypes"}, Prelude: "variable (ext_Covers : Bytes → Bytes → GoM Bool)\n"},
 	{Name: "ChainShell", Imports: []string{"ChainTypes"}, Prelude: chainShellPrelude},
@@ -80,6 +81,7 @@ var targets = []target{
 	{Dir: "pkg/policy", Name: "isOrdered", Lean: "isOrdered", File: "PolicyOrder", Concrete: []string{"datamodel.Node"}},
 	{Dir: "pkg/policy/limits", Name: "ValidateIntegerBoundsIPLD", Lean: "ValidateIntegerBoundsIPLD_step", File: "Limits", MapIterators: true,
 		Concrete: []string{"datamodel.Node"}, SelfAs: "ext_self", Uses: []string{"ext_self"}},
+	{Dir: "pkg/args", Recv: "Args", Name: "Validate", Lean: "Args_Validate", File: "Args", Concrete: []string{"args.Args", "*args.Args", "datamodel.Node"}},
 	{Dir: "pkg/policy", Name: "parseGlob", Lean: "parseGlob", File: "Glob", Fuel: []string{"pattern.length + 1"}},
 	{Dir: "pkg/policy", Recv: "glob", Name: "Match", Lean: "glob_Match", File: "Glob",
 		Fuel: []string{"(str.length + 1) * (pattern.length + 2) + 1", "pattern.length + 1"}},
@@ -205,7 +207,9 @@ var structTable = map[string]*structDef{
 	"envelope.Info": {dir: "token/internal/envelope", name: "Info", lean: "EnvInfo", leanType: "EnvInfo", params: "",
 		want: []string{"Tag", "Signature", "VarsigHeader", "sigPayloadNode", "tokenPayloadNode"}, concrete: []string{"datamodel.Node"}},
 	// the DID value as package did itself sees it (every other package sees the opaque, comparable D)
-	"did.DID": {dir: "did", name: "DID", lean: "DidVal", leanType: "DidVal", params: "", want: []string{"code", "bytes"}},
+	// an argument set as package args itself sees it: the ordered keys and the value map (its entries as a list, in any order)
+	"args.Args": {dir: "pkg/args", name: "Args", lean: "ArgsVal", leanType: "ArgsVal", params: "", want: []string{"Keys", "Values"}, concrete: []string{"datamodel.Node"}},
+	"did.DID":   {dir: "did", name: "DID", lean: "DidVal", leanType: "DidVal", params: "", want: []string{"code", "bytes"}},
 }
 
 func emitStructs(b *strings.Builder, keys []string) error {
@@ -271,7 +275,7 @@ var concreteTable = map[string]string{
 
 // impureLibCalls: library functions that can fail — their translation is a GoM computation
 var impureLibCalls = map[string]bool{"lookupByIndex__": true, "mbase.Decode": true, "varint.FromUvarint": true, "did.Parse": true, "parse.OptionalDID": true,
-	"command.Parse": true, "command.IsValid": true, "policy.FromIPLD": true, "parse.OptionalTimestamp": true}
+	"command.Parse": true, "command.IsValid": true, "limits.ValidateIntegerBoundsIPLD": true, "policy.FromIPLD": true, "parse.OptionalTimestamp": true}
 
 // libCalls: standard-library functions with their model. `lower` (strings.ToLower) stays a parameter.
 var libCalls = map[string]libCall{
@@ -287,13 +291,14 @@ var libCalls = map[string]libCall{
 	"mbase.Decode":       {"(ext_mbDecode $1)", ty{"(Int × Bytes)", "pair"}, []string{"ext_mbDecode"}},
 	"varint.FromUvarint": {"(ext_fromUvarint $1)", ty{"(Int × Int)", "pair"}, []string{"ext_fromUvarint"}},
 	// functions of other packages of the library that a decoder calls: translated ones are called, the others are parameters
-	"did.Parse":               {"(ext_didParse $1)", ty{"D", "did.DID"}, []string{"ext_didParse"}},
-	"parse.OptionalDID":       {"(ext_optionalDID $1)", ty{"D", "did.DID"}, []string{"ext_optionalDID"}},
-	"command.IsValid":         {"(Command_IsValid lower $1)", boolTy, []string{"lower"}},
-	"command.Parse":           {"(Command_Parse lower $1)", ty{"Bytes", "command.Command"}, []string{"lower"}},
-	"policy.FromIPLD":         {"(ext_policyFromIPLD $1)", ty{"(List (Option S))", "policy.Policy"}, []string{"ext_policyFromIPLD"}},
-	"parse.OptionalTimestamp": {"(OptionalTimestamp $1)", ty{"(Option Int)", "*time.Time"}, nil},
-	"meta.NewMeta":            {"(some ext_newMeta)", ty{"(Option M)", "*meta.Meta"}, []string{"ext_newMeta"}},
+	"did.Parse":                        {"(ext_didParse $1)", ty{"D", "did.DID"}, []string{"ext_didParse"}},
+	"parse.OptionalDID":                {"(ext_optionalDID $1)", ty{"D", "did.DID"}, []string{"ext_optionalDID"}},
+	"command.IsValid":                  {"(Command_IsValid lower $1)", boolTy, []string{"lower"}},
+	"command.Parse":                    {"(Command_Parse lower $1)", ty{"Bytes", "command.Command"}, []string{"lower"}},
+	"policy.FromIPLD":                  {"(ext_policyFromIPLD $1)", ty{"(List (Option S))", "policy.Policy"}, []string{"ext_policyFromIPLD"}},
+	"parse.OptionalTimestamp":          {"(OptionalTimestamp $1)", ty{"(Option Int)", "*time.Time"}, nil},
+	"limits.ValidateIntegerBoundsIPLD": {"(ValidateIntegerBoundsIPLD_run $1)", ty{"Unit", "unit"}, nil},
+	"meta.NewMeta":                     {"(some ext_newMeta)", ty{"(Option M)", "*meta.Meta"}, []string{"ext_newMeta"}},
 	// pseudo-functions the map-iterator rewrite produces
 	"listEntries__": {"(listEntries $1)", ty{"(List Node)", "[]datamodel.Node"}, nil},
 	"mapEntries__":  {"(mapEntries $1)", ty{"(List (Node × Node))", "[]nodepair"}, nil},
@@ -455,6 +460,9 @@ const limitsPostlude = `/-- ` + "`limits.ValidateIntegerBoundsIPLD`" + `: the re
 def ValidateIntegerBoundsIPLD : Nat → Node → GoM Unit
   | 0, _ => throw .fuel
   | fuel + 1, node => ValidateIntegerBoundsIPLD_step (ValidateIntegerBoundsIPLD fuel) node
+
+/-- … as its callers see it: with the fuel the node's nesting depth asks for (Tie/Limits: any larger fuel gives the same answer) -/
+def ValidateIntegerBoundsIPLD_run (node : Node) : GoM Unit := ValidateIntegerBoundsIPLD (nodeDepth node + 1) node
 `
 
 const prelude = `variable (lower : Bytes → Bytes) {D C S A : Type} [DecidableEq D]
